@@ -448,6 +448,37 @@ def rule_event_set(ctx: Ctx, out: Collector) -> None:
                         f'does not set its event: a second arrival waits forever', path_text(g, path))
     if count == 0:
         out.note('WK-k: no processed-node mark in the current tree (ON-1 / ON-2 report its absence)')
+    # ON-7: the converse - the event is the signal "the execution of this node is over"; only the activation that executes the
+    # node (the one that marked it) may give it.  A request that merely waited for another scope's execution and is cancelled
+    # must not release the other waiters: they would read a missing result as None and publish it.
+    for fid, g in ctx.run_graphs().items():
+        marks_by_key = {}
+        for pub in publishes(ctx, g, ['processed_nodes']):
+            marks_by_key.setdefault(pub.key, set()).add(pub.ev.id)
+        sites = [(ev, ctx.roles.event_set(ev)) for ev in g.events('call')]
+        sites = [(ev, k) for ev, k in sites if k is not None and k in marks_by_key]
+        if not sites:
+            continue
+        cons = f'{g.root.module.name}::{g.root.qualname}::the execution event of a node is set by the executing request only [event owner]'
+        bad = None
+        for ev, k in sites:
+            barrier = marks_by_key[k]
+            s = Search(ctx.p, g, ALL_LABELS)
+            res = s.run([(g.entry, 0, frozenset())], lambda e, st, f: None if e.id in barrier else 0,
+                        lambda e, st, f, ev=ev: e.id == ev.id)
+            if res is not None:
+                bad = (ev, k, res[0])
+                break
+        if bad is None:
+            out.ok('ON-7', cons, g.evs[g.entry].where(), f'{len(sites)} event-set site(s): every path to them passes the processed mark '
+                                                          f'of the same node in this activation')
+        else:
+            ev, k, path = bad
+            out.bad('ON-7', cons, ev.where(),
+                    f'the execution event of {sym.show(k)} can be set by a request that did not execute the node (it only waited for '
+                    f'the execution owned by another scope): when such a waiter is cancelled - the error exit of a one-of launch loop '
+                    f'cancels its own tasks - the other waiters wake up while the body is still running, read a missing result as None '
+                    f'and publish it', path_text(g, path), props={'C03', 'C04', 'C14'})
 
 
 def rule_lock_regions(ctx: Ctx, out: Collector) -> None:
